@@ -13,6 +13,7 @@ In every new canonical state: LIST == model, PEEK link chain == model numbers an
 ends in 00 00, incremental index == independent rescan == real rebuild_line_dict,
 execution entering at each line lands where the model says.
 """
+import io
 import os
 import hashlib
 
@@ -65,6 +66,9 @@ def _body(n, shape):
         return ('r', (b'r%d' % n).ljust(40, b'.'))
     if shape[0] == 'g':
         return ('g', int(shape[1:]))
+    if shape[0] == 'x':
+        # a REM of a given length: moves every later line by one byte per step
+        return ('r', b'x' * int(shape[1:]))
     raise ValueError(shape)
 
 
@@ -416,6 +420,77 @@ def work_depth(shard):
     return part
 
 
+class _KeepBytesIO(io.BytesIO):
+    """Stream that survives close() so that what SAVE wrote can be read back."""
+
+    def close(self):
+        pass
+
+
+def _state_viols(s, model, tag):
+    _k, code, index = state_key(s)
+    return check_state(s, model, tag, code, index)
+
+
+def work_alignment(shard):
+    """E1: the same three-line program at every byte alignment of its second and third line
+    (256 consecutive lengths of the first line put every value of the low byte, and a carry into
+    the high byte, into the stored link words), as typed, after a tokenised SAVE + LOAD, and
+    loaded from a hand-assembled file whose (arbitrary) link words have a zero low or high byte."""
+    part = Partial()
+    for pad in shard['pads']:
+        # (a typed line holds at most 255 characters: the padding is spread over two lines)
+        hist = [('line', 5, 'x%d' % min(pad, 200)), ('line', 10, 'x%d' % (pad - min(pad, 200))),
+                ('line', 20, 'p'), ('line', 30, 'g10')]
+        for variant in ('typed', 'saved', 'file-lo0', 'file-hi0'):
+            part.n += 1
+            part.traces += 1
+            case = {'pad': pad, 'variant': variant}
+            if variant in ('typed', 'saved'):
+                s, model, ok, _label = replay_history(hist)
+                if not ok:
+                    part.violation('alignment/host-exception/' + variant, 'history %r failed' % (hist,), case)
+                    continue
+                if variant == 'saved':
+                    stream = _KeepBytesIO()
+                    name = bytes(s.bind_file(stream, create=True))
+                    r = R.run(s, b'SAVE "%s"' % (name,))
+                    r2 = R.run(s, b'NEW')
+                    name2, _st = R.bind_bytes(s, stream.getvalue())
+                    r3 = R.run(s, b'LOAD "%s"' % (name2,))
+                    bad = [x for x in (r, r2, r3) if x.exc is not None or x.err is not None]
+                    if bad:
+                        part.violation('alignment/save-load-refused', 'SAVE/NEW/LOAD of %r: %r %r'
+                                       % (model.listing(), bad[0].err, bad[0].exc), case)
+                        continue
+            else:
+                s = R.bounded_session(limit=40)
+                model = ProgramModel()
+                for op in hist:
+                    model.enter(op[1], _body(op[1], op[2]))
+                link = 0x2300 if variant == 'file-lo0' else 0x0023
+                data = R.tokenised_file([(op[1], _tok_body(_body(op[1], op[2]))) for op in hist], link=link)
+                if variant == 'file-hi0':
+                    # link words 0x0023, 0x0024, 0x0025: zero high bytes
+                    data = bytearray(data)
+                    pos = 1
+                    for i, op in enumerate(hist):
+                        data[pos:pos+2] = bytes((0x23 + i, 0))
+                        pos += 4 + len(_tok_body(_body(op[1], op[2]))) + 1
+                    data = bytes(data)
+                name, _st = R.bind_bytes(s, data)
+                r = R.run(s, b'LOAD "%s"' % (name,))
+                if r.exc is not None or r.err is not None:
+                    part.violation('alignment/load-refused/' + variant, 'LOAD of a hand-assembled file: %r %r'
+                                   % (r.err, r.exc), case)
+                    continue
+            for key, what in _state_viols(s, model, variant):
+                part.violation('alignment/' + key, what + ' [%d bytes of padding, %s]' % (pad, variant), case)
+            part.classes.add('alignment/%s/low-byte-%s' % (variant, 'zero' if any(c[2] % 256 == 0 for c in R.peek_chain(s)[0]) else 'nonzero'))
+            part.outcome('alignment-%s-checked' % variant)
+    return part
+
+
 def legs(ctx):
     nsmall = len(CONFIGS['small']['ops'])
     nbig = len(CONFIGS['big']['ops'])
@@ -426,6 +501,8 @@ def legs(ctx):
                       '(extra closure_fixed_point=1 confirms closure)' % nsmall),
             Leg('depth', [{'depth': 3}], work_depth, exhaustive=True, serial=True,
                 bound='all histories of <=3 ops over %d ops, programs <=4 lines expanded' % nbig),
+            Leg('alignment', [{'pads': list(range(k, 260, 16))} for k in range(16)], work_alignment, exhaustive=True,
+                bound='padding 0..259 (every low byte of the link words, one carry) x typed / SAVE+LOAD / 2 hand-assembled files'),
             Leg('tight', [{'depth': 4}], work_tight, exhaustive=True, serial=True,
                 bound='all histories of <=3 ops over %d ops after CLEAR ,%d (69 bytes of program memory: line entry '
                       'fails with Out of memory in many states and must leave the program as it was)' % (
@@ -440,6 +517,8 @@ def legs(ctx):
                   '(extra closure_fixed_point=1 confirms closure)' % nsmall),
         Leg('depth', [{'depth': depth}], work_depth, exhaustive=True, serial=True,
             bound='all histories of <=%d ops over %d ops, programs <=4 lines expanded' % (depth, nbig)),
+        Leg('alignment', [{'pads': list(range(k, 400, 16))} for k in range(16)], work_alignment, exhaustive=True,
+            bound='padding 0..399 (every low byte of the link words, two carries) x typed / SAVE+LOAD / 2 hand-assembled files'),
         Leg('tight', [{'depth': 64}], work_tight, exhaustive=True, serial=True,
             bound='fixed point of %d ops after CLEAR ,%d (69 bytes of program memory: line entry fails with Out of '
                   'memory in many states and must leave the program as it was)' % (len(CONFIGS['tight']['ops']), TIGHT_MEMORY)),
@@ -447,6 +526,10 @@ def legs(ctx):
 
 
 def replay(ctx, leg, case):
+    if 'pad' in case:
+        part = work_alignment({'pads': [case['pad']]})
+        part.viol = [v for v in part.viol if v[2].get('variant') == case.get('variant')]
+        return part
     part = Partial()
     hist = [tuple(None if x is None else x for x in op) for op in case['history']]
     if not hist:
